@@ -1,7 +1,7 @@
 #!/bin/sh
 # Regenerates DESIGN.md from DESIGN.tmpl.md: fills in the catalogue of claims and the detection matrix.
 cd /verif || exit 2
-bin/d2verif describe > /tmp/d2verif-describe.md
+${D2VERIF_BIN:-bin/d2verif} describe > /tmp/d2verif-describe.md
 python3 tools/matrix.py > /tmp/d2verif-matrix.md
 python3 - <<'PY'
 t=open('/verif/DESIGN.tmpl.md').read()
